@@ -1515,10 +1515,17 @@ class Frame:
                     k = k.concrete()
                 else:
                     from . import sstr
-                    for m in o:
-                        if eng.decide(sstr.eq(k, m.name)):
-                            return m
-                    raise RaiseEx(KeyError('<symbolic name>'))
+                    eqs = [(m, sstr.eq(k, m.name)) for m in o]
+                    eqs = [(m, e) for m, e in eqs if e is not False]
+                    if any(e is True for _, e in eqs):
+                        return [m for m, e in eqs if e is True][0]
+                    if not eqs or not eng.decide(z3.Or([e for _, e in eqs])):
+                        raise RaiseEx(KeyError('<symbolic name>'))
+                    # one symbolic member instead of a fork per name (names are distinct, so at most one test holds)
+                    code = z3.IntVal(enum_code(eqs[-1][0]))
+                    for m, e in reversed(eqs[:-1]):
+                        code = z3.If(e, enum_code(m), code)
+                    return SEnum(o, code)
             try:
                 return o[k]
             except KeyError as ex:
